@@ -105,6 +105,7 @@ type concReq struct {
 	wall0     time.Time // clock before the funding call: the reservation lasts at least until wall0 + duration
 	wall1     time.Time // clock after the funding call
 	relStart  int64     // MaxInt64 while outstanding
+	relEnd    int64     // stamped after ReleaseInputs returned (MaxInt64 until then)
 }
 
 func (r *concReq) release(w *wallet.SingleAddressWallet) {
@@ -249,7 +250,7 @@ func runC07Conc(c C07ConcCase, cs *kit.CaseStats) error {
 				switch op.K {
 				case "fund":
 					amount := amountOf(op)
-					r := &concReq{worker: wi, amount: amount, useUnconf: op.U, relStart: math.MaxInt64}
+					r := &concReq{worker: wi, amount: amount, useUnconf: op.U, relStart: math.MaxInt64, relEnd: math.MaxInt64}
 					var err error
 					if op.V2 {
 						r.kind = "v2"
@@ -286,6 +287,7 @@ func runC07Conc(c C07ConcCase, cs *kit.CaseStats) error {
 					} else {
 						r.relStart = clock.Add(1)
 						r.release(wd.w)
+						r.relEnd = clock.Add(1)
 					}
 				case "redist":
 					n := clampInt(op.N, 1, 12)
@@ -293,7 +295,7 @@ func runC07Conc(c C07ConcCase, cs *kit.CaseStats) error {
 					if amount.IsZero() {
 						amount = types.Siacoins(1)
 					}
-					r := &concReq{worker: wi, kind: "redist", amount: amount, relStart: math.MaxInt64}
+					r := &concReq{worker: wi, kind: "redist", amount: amount, relStart: math.MaxInt64, relEnd: math.MaxInt64}
 					r.fundStart, r.wall0 = clock.Add(1), time.Now()
 					_, txns, _, err := wd.w.Redistribute(n, amount, types.ZeroCurrency)
 					r.fundEnd, r.wall1 = clock.Add(1), time.Now()
@@ -319,9 +321,10 @@ func runC07Conc(c C07ConcCase, cs *kit.CaseStats) error {
 					} else {
 						r.relStart = clock.Add(1)
 						r.release(wd.w)
+						r.relEnd = clock.Add(1)
 					}
 				case "split":
-					r := &concReq{worker: wi, kind: "split", relStart: math.MaxInt64}
+					r := &concReq{worker: wi, kind: "split", relStart: math.MaxInt64, relEnd: math.MaxInt64}
 					r.fundStart, r.wall0 = clock.Add(1), time.Now()
 					txn, err := wd.w.SplitUTXO(splitN, splitMin)
 					r.fundEnd, r.wall1 = clock.Add(1), time.Now()
@@ -341,6 +344,7 @@ func runC07Conc(c C07ConcCase, cs *kit.CaseStats) error {
 						mine = mine[1:]
 						r.relStart = clock.Add(1)
 						r.release(wd.w)
+						r.relEnd = clock.Add(1)
 					}
 				default:
 					if _, err := wd.w.SpendableOutputs(); err != nil {
@@ -535,7 +539,8 @@ func runC07Conc(c C07ConcCase, cs *kit.CaseStats) error {
 				// id and then drops a's reservation too - the integrator's doing.
 				thirdRelease := false
 				for _, c := range rs {
-					if c != a && c.relStart != math.MaxInt64 && c.relStart > a.fundStart && c.relStart < b.fundEnd {
+					// (the release took effect somewhere between its two stamps)
+					if c != a && c.relStart != math.MaxInt64 && c.relEnd > a.fundStart && c.relStart < b.fundEnd {
 						thirdRelease = true
 					}
 				}
